@@ -431,6 +431,8 @@ class _Inliner:
                 new += pre
                 _replace(s, c, ret)
                 self.done += 1
+            if isinstance(s, ast.Expr) and isinstance(s.value, ast.Constant) and s.value.value is None and calls:
+                continue          # a procedure call that has been expanded: nothing is left of the statement
             new.append(s)
         return new
 
@@ -446,6 +448,30 @@ def _replace(root: ast.AST, old: ast.AST, new: ast.AST):
                     if x is old:
                         val[i] = new
                         return
+
+
+def _expose_fields(fn: ast.FunctionDef, obj_helpers: Dict[str, ast.FunctionDef]):
+    """A call to a method of an inlined object that could not be expanded (a call in a `while` test, a method with several exits that
+    cannot be folded) stays behind as a call to a synthetic name.  Its reads of the object's fields are made explicit as keyword
+    arguments, so that dependence rules see what the call consumes instead of an opaque call that ignores the object's state."""
+    def fields_read(name, seen):
+        if name in seen or name not in obj_helpers:
+            return set()
+        seen.add(name)
+        out = set()
+        for n in ast.walk(obj_helpers[name]):
+            if isinstance(n, ast.Name) and n.id.startswith('__o') and isinstance(n.ctx, ast.Load):
+                out.add(n.id)
+            if isinstance(n, ast.Call) and isinstance(n.func, ast.Name) and n.func.id.startswith('__X'):
+                out |= fields_read(n.func.id, seen)
+        return out
+    for c in ast.walk(fn):
+        if isinstance(c, ast.Call) and isinstance(c.func, ast.Name) and c.func.id in obj_helpers:
+            have = {k.arg for k in c.keywords}
+            for fld in sorted(fields_read(c.func.id, set())):
+                if fld not in have:
+                    c.keywords.append(ast.keyword(arg=fld, value=ast.Name(id=fld, ctx=ast.Load())))
+    ast.fix_missing_locations(fn)
 
 
 def _rebinds_free_names(inner: ast.FunctionDef, outer: ast.FunctionDef) -> bool:
@@ -499,6 +525,8 @@ def inline_new_helpers(tree: ast.Module, module: str) -> int:
             if inl.done == before or obj is None:
                 break
         inl.helpers = saved
+        if obj is not None:
+            _expose_fields(fn, obj.helpers)
 
     targets = []
     for n in tree.body:
